@@ -70,4 +70,79 @@ def probes(pid):
                 problem = 'to_pandas raised %r' % (e,)
             out.append(_case(pid, 'finding C17 to_pandas integer beyond 2**53 next to None', problem,
                              'MixedColumn [10**17+1, None, 3] -> to_pandas'))
+        if pid == 'C19':
+            from datamatrix import functional as fnc
+            import functools
+            # F1: filter_ on a column that is known under two names
+            dm = DataMatrix(length=3)
+            dm.a = 1, 2, 3
+            dm.b = dm.a
+            problem = None
+            try:
+                r = fnc.filter_(lambda x: x > 1, dm.a)
+                if isinstance(r, DataMatrix) or list(r) != [2, 3]:
+                    problem = ('filter_(f, dm.a) on a column known under two names (dm.b = dm.a) returns %s instead of '
+                               'the column [2, 3]' % (type(r).__name__,))
+            except Exception as e:      # noqa: BLE001
+                problem = 'filter_ on an aliased column raised %r' % (e,)
+            out.append(_case(pid, 'finding C19 filter_ on a column known under two names', problem,
+                             'dm.a = 1, 2, 3; dm.b = dm.a; filter_(lambda x: x > 1, dm.a)'))
+            # F2: setcol on a table with an aliased column differs from the direct assignment
+            dm = DataMatrix(length=3)
+            dm.a = 1, 2, 3
+            dm.b = dm.a
+            problem = None
+            try:
+                r = fnc.setcol(dm, 'a', 7)
+                d2 = DataMatrix(length=3)
+                d2.a = 1, 2, 3
+                d2.b = d2.a
+                d2['a'] = 7
+                if (list(r.a), list(r.b)) != (list(d2.a), list(d2.b)):
+                    problem = ("setcol(dm, 'a', 7) with dm.b = dm.a gives a=%r b=%r, the assignment dm['a'] = 7 gives a=%r b=%r"
+                               % (list(r.a), list(r.b), list(d2.a), list(d2.b)))
+            except Exception as e:      # noqa: BLE001
+                problem = 'setcol on an aliased table raised %r' % (e,)
+            out.append(_case(pid, 'finding C19 setcol on a table with a column known under two names', problem,
+                             "dm.a = 1, 2, 3; dm.b = dm.a; setcol(dm, 'a', 7) vs dm['a'] = 7"))
+            # F3: setcol / map_ build on dm[:], which drops default_col_type
+            problem = None
+            try:
+                dm = DataMatrix(length=2, default_col_type=IntColumn)
+                r = fnc.setcol(dm, 'y', [1.5, 2.5])
+                d2 = DataMatrix(length=2, default_col_type=IntColumn)
+                d2['y'] = [1.5, 2.5]
+                if type(r.y) is not type(d2.y) or list(r.y) != list(d2.y):
+                    problem = ("setcol(dm, 'y', [1.5, 2.5]) on a table with default_col_type=IntColumn gives %s %r, the "
+                               "assignment gives %s %r" % (type(r.y).__name__, list(r.y), type(d2.y).__name__, list(d2.y)))
+            except Exception as e:      # noqa: BLE001
+                problem = 'setcol with default_col_type raised %r' % (e,)
+            out.append(_case(pid, 'finding C19 setcol drops default_col_type', problem,
+                             "DataMatrix(length=2, default_col_type=IntColumn); setcol(dm, 'y', [1.5, 2.5])"))
+            # F5: a callable that is not a plain function
+            dm = DataMatrix(length=3)
+            dm.a = 1, 2, 3
+            problem = None
+            try:
+                r = fnc.filter_(functools.partial(lambda lo, x: x > lo, 1), dm.a)
+                if list(r) != [2, 3]:
+                    problem = 'filter_(functools.partial(...), dm.a) returns %r instead of [2, 3]' % (list(r),)
+            except Exception as e:      # noqa: BLE001
+                problem = 'filter_ with a functools.partial raised %r' % (e,)
+            out.append(_case(pid, 'finding C19 filter_ with a callable that is not a plain function', problem,
+                             'filter_(functools.partial(lambda lo, x: x > lo, 1), dm.a)'))
+        if pid == 'C14':
+            dm = DataMatrix(length=4)
+            dm.A = 'x', 'y', 'x', 'y'
+            dm.B = dm.A
+            dm.C = 1, 1, 2, 2
+            problem = None
+            try:
+                parts = [(v1, v2, list(d.C)) for v1, v2, d in ops.split(dm.C, dm.A)]
+                if len(parts) != 4:
+                    problem = 'split(dm.C, dm.A) with dm.B = dm.A gives %r' % (parts,)
+            except Exception as e:      # noqa: BLE001
+                problem = 'split(dm.C, dm.A) with the key column dm.A known under two names raised %s: %s' % (type(e).__name__, e)
+            out.append(_case(pid, 'finding C14 split by a column known under two names', problem,
+                             "dm.A = 'x','y','x','y'; dm.B = dm.A; dm.C = 1,1,2,2; ops.split(dm.C, dm.A)"))
     return out
